@@ -101,9 +101,9 @@ func init() {
 		Title:       "Collection statistics describe the documents actually in the segment",
 		Technique:   "static analysis: provenance of the statistics maps (lane identification) + unit classification of every accumulated increment + SSA structural checks of record order, decode order, accessors and Merge",
 		Level:       "Static rules deciding named necessary conditions: which quantity is accumulated into which statistic (units), that the two lanes never cross anywhere between builder/merger, file record, loader, Segment fields and CollectionStats, and that Merge adds component-wise unconditionally. Partial: that the sums are numerically right for a given input is a value property.",
-		Explanation: "STAT-UNITS identifies the maps of the two lanes from the arguments of persistFields and the stores to Segment.fieldDocs/fieldFreqs (provenance of map creation sites), then classifies the increment of every MapUpdate on them: the frequency lane must add Field.Length()/Posting.Frequency(), the document lane 1 per element of a per-document set or the tracker's cardinality. STAT-LANES checks the record order in persistFields, the decode order in loadFields, initSegmentBase's parameter-to-field mapping, the three CollectionStats fields and accessors, unconditional component-wise Merge, and that the merger clears the per-field document tracker before use on every path.",
+		Explanation: "STAT-UNITS identifies the maps of the two lanes from the arguments of persistFields and the stores to Segment.fieldDocs/fieldFreqs (provenance of map creation sites), then classifies the increment of every MapUpdate on them: the frequency lane must add Field.Length()/Posting.Frequency(), the document lane 1 per element of a per-document set or the tracker's cardinality. STAT-LANES checks the record order in persistFields, the decode order in loadFields, initSegmentBase's parameter-to-field mapping, the three CollectionStats fields and accessors, unconditional component-wise Merge, and that the merger clears the per-field document tracker before use on every path. ESCAPE-FRESH shows the statistics maps a built Segment keeps are fresh allocations on every path of the pooled builder (never kept, emptied or re-used from an earlier batch), so a later build cannot rewrite the statistics of an earlier segment.",
 		NotCovered:  "numeric correctness of the sums for particular inputs/deletions (value property)",
-		Uses:        []RuleUse{{"STAT-UNITS", ""}, {"STAT-LANES", ""}, {"TAIL-READ-BOUNDED", ""}},
+		Uses:        []RuleUse{{"STAT-UNITS", ""}, {"STAT-LANES", ""}, {"TAIL-READ-BOUNDED", ""}, {"ESCAPE-FRESH", ""}},
 	})
 }
 
@@ -197,8 +197,8 @@ func init() {
 		Title:       "Postings iterators navigate correctly under Next/Advance, exclusions and flags",
 		Technique:   "static analysis: SSA agreement rules between the stream writers and the iterator's read and skip paths (per-posting arity, byte-count prefix), flag-guarded decoder use (interprocedural), sticky end of iteration, Count/exclusion shape — structural necessary conditions only",
 		Level:       "Static rules deciding named NECESSARY conditions of navigation: the read path and both skip paths consume exactly what the writer emits per posting in each stream, locations are skipped by the recorded byte count, no flag combination reaches a missing decoder, the 1-hit cursor is consumed on every return, an exhausted cursor is never advanced, Count subtracts the excluded intersection, exclusions are applied into a fresh bitmap. WHICH posting Next/Advance(d) returns for a given history is a relation over runtime cursor values and is NOT decided.",
-		Explanation: "ENTRY-ARITY compares the per-posting shape written by tfEncoder/locEncoder (2 uvarints; byte-count prefix + 4 uvarints per location) with readFreqNormHasLocs, skipFreqNormReadHasLocs, readLocation, the location loop of nextAtOrAfter and the skip in currChunkNext. READER-FLAG-GUARD computes interprocedurally which iterator methods need includeLocs/includeFreqNorm and proves no exported method reaches an unguarded decoder use. ITER-END proves every return of the 1-hit branch leaves the hit consumed, every Actual.Next() is behind HasNext(), Count subtracts |postings ∩ except| for both encodings, and exclusions are applied as AndNot into a fresh bitmap. LENPREFIX-AGREE, CHUNK-AGREE (reader side), ONEHIT-AWARE, CACHE-COHERENT and STATE-AFTER-FALLIBLE cover the prefix, chunk index, encoding dispatch and chunk switching the navigation relies on.",
-		NotCovered:  "which posting is returned by Next/Advance for a given call history, the skip counting across chunks (sameChunkNexts arithmetic), lock-step advance of the two cursors under exclusions (values)",
-		Uses:        []RuleUse{{"ENTRY-ARITY", ""}, {"READER-FLAG-GUARD", ""}, {"ITER-END", ""}, {"LENPREFIX-AGREE", ""}, {"CHUNK-AGREE", ""}, {"ONEHIT-AWARE", ""}, {"CACHE-COHERENT", ""}, {"STATE-AFTER-FALLIBLE", ""}},
+		Explanation: "ENTRY-ARITY compares the per-posting shape written by tfEncoder/locEncoder (2 uvarints; byte-count prefix + 4 uvarints per location) with readFreqNormHasLocs, skipFreqNormReadHasLocs, readLocation, the location loop of nextAtOrAfter and the skip in currChunkNext. READER-FLAG-GUARD computes interprocedurally which iterator methods need includeLocs/includeFreqNorm and proves no exported method reaches an unguarded decoder use. ITER-END proves the clean fast path is entered only under postings == nil || postings.postings == ActualBM (boolean abstraction; ReplaceActual can change ActualBM at any time), every return of the 1-hit branch leaves the hit consumed, every Actual.Next() is behind HasNext(), Count subtracts |postings ∩ except| for both encodings, and exclusions are applied as AndNot into a fresh bitmap. REPLAY-COUNT checks that the replay counter of the clean path is reset by comparing chunk numbers of postings, not the loaded chunk. LENPREFIX-AGREE, CHUNK-AGREE (reader side), ONEHIT-AWARE, CACHE-COHERENT and STATE-AFTER-FALLIBLE cover the prefix, chunk index, encoding dispatch and chunk switching the navigation relies on.",
+		NotCovered:  "which posting is returned by Next/Advance for a given call history, the skip counting across chunks beyond the operands of its reset test (sameChunkNexts arithmetic), lock-step advance of the two cursors under exclusions (values)",
+		Uses:        []RuleUse{{"ENTRY-ARITY", ""}, {"READER-FLAG-GUARD", ""}, {"ITER-END", ""}, {"REPLAY-COUNT", ""}, {"LENPREFIX-AGREE", ""}, {"CHUNK-AGREE", ""}, {"ONEHIT-AWARE", ""}, {"CACHE-COHERENT", ""}, {"STATE-AFTER-FALLIBLE", ""}},
 	})
 }
